@@ -49,4 +49,24 @@ run benign3-C17 C17
 run benign3-C18 C18 C07 C08
 run benign3-C19 C19
 run benign3-C20 C20
+run benign4-C01 C01 C02 C03 C15
+run benign4-C02 C02 C03 C01 C15
+run benign4-C03 C03 C01 C02 C15
+run benign4-C04 C04 C05 C12
+run benign4-C05 C05 C04
+run benign4-C06 C06 C07 C08 C18
+run benign4-C07 C07 C06 C08 C18
+run benign4-C08 C08 C06 C07 C18
+run benign4-C09 C09 C10
+run benign4-C10 C10 C09
+run benign4-C11 C11 C02 C04
+run benign4-C12 C12 C04 C05
+run benign4-C13 C13
+run benign4-C14 C14 C15
+run benign4-C15 C15 C02 C03
+run benign4-C16 C16
+run benign4-C17 C17
+run benign4-C18 C18 C07 C08
+run benign4-C19 C19
+run benign4-C20 C20
 echo ALLDONE
